@@ -304,6 +304,9 @@ func (f *Formula) eval(v map[string]bool) bool {
 // valuation of eq/lt atoms: for each pair (a,b) at most one of a<b, b<a,
 // a==b holds and (when all three atoms are present) exactly one.
 func consistent(atoms map[string]*Term, v map[string]bool) bool {
+	if !transitiveOK(atoms, v) {
+		return false
+	}
 	for _, t := range atoms {
 		switch t.Op {
 		case "lt":
@@ -368,6 +371,23 @@ func implied(st *State, f *Formula) (bool, string) {
 			}
 		}
 	}
+	// order facts of the path between operands of the formula's atoms take part
+	// too (they can close a chain a < b < c that decides an atom about a and c)
+	operands := map[string]bool{}
+	for _, k := range keys {
+		if t := set[k]; (t.Op == "lt" || t.Op == "eq") && len(t.Args) == 2 {
+			operands[t.Args[0].key], operands[t.Args[1].key] = true, true
+		}
+	}
+	for _, k := range sortedFactKeys(st) {
+		t := st.fterm[k]
+		if t == nil || t.Op != "lt" || len(t.Args) != 2 || len(set) >= 16 {
+			continue
+		}
+		if _, have := set[t.key]; !have && operands[t.Args[0].key] && operands[t.Args[1].key] {
+			set[t.key] = t
+		}
+	}
 	keys = keys[:0]
 	for k := range set {
 		keys = append(keys, k)
@@ -409,4 +429,94 @@ func implied(st *State, f *Formula) (bool, string) {
 		}
 	}
 	return true, ""
+}
+
+// transitiveOK: the atoms valued true/false admit a strict order: the
+// transitive closure of the true lt atoms (with true eq atoms merging their
+// sides) has no cycle and contradicts no atom valued false.
+func transitiveOK(atoms map[string]*Term, v map[string]bool) bool {
+	nLt := 0
+	for _, t := range atoms {
+		if t.Op == "lt" && v[t.key] {
+			nLt++
+		}
+	}
+	if nLt < 2 {
+		return true
+	}
+	// union-find over term keys for true equalities
+	parent := map[string]string{}
+	var find func(string) string
+	find = func(k string) string {
+		p, ok := parent[k]
+		if !ok || p == k {
+			parent[k] = k
+			return k
+		}
+		r := find(p)
+		parent[k] = r
+		return r
+	}
+	for _, t := range atoms {
+		if t.Op == "eq" && v[t.key] && len(t.Args) == 2 {
+			a, b := find(t.Args[0].key), find(t.Args[1].key)
+			if a != b {
+				parent[a] = b
+			}
+		}
+	}
+	less := map[string]map[string]bool{}
+	nodes := map[string]bool{}
+	for _, t := range atoms {
+		if t.Op == "lt" && v[t.key] {
+			a, b := find(t.Args[0].key), find(t.Args[1].key)
+			if less[a] == nil {
+				less[a] = map[string]bool{}
+			}
+			less[a][b] = true
+			nodes[a], nodes[b] = true, true
+		}
+	}
+	var ns []string
+	for n := range nodes {
+		ns = append(ns, n)
+	}
+	sort.Strings(ns)
+	for _, k := range ns {
+		for _, i := range ns {
+			if !less[i][k] {
+				continue
+			}
+			for _, j := range ns {
+				if less[k][j] {
+					if less[i] == nil {
+						less[i] = map[string]bool{}
+					}
+					less[i][j] = true
+				}
+			}
+		}
+	}
+	for _, n := range ns {
+		if less[n][n] {
+			return false
+		}
+	}
+	for _, t := range atoms {
+		if len(t.Args) != 2 {
+			continue
+		}
+		a, b := find(t.Args[0].key), find(t.Args[1].key)
+		switch {
+		case t.Op == "lt" && !v[t.key]:
+			if less[a][b] {
+				return false
+			}
+		case t.Op == "eq" && v[t.key]:
+			if less[a][b] || less[b][a] {
+				return false
+			}
+		}
+	}
+	return true
 }
